@@ -1,7 +1,7 @@
 (* C19 -- Simulation processes run deterministically in the documented phase order.
    Model: SimProcDefs.v (transcription of ReferenceSimulator.cpp / SimulationProcess.h scheduling, tied to
    the real simulator by checks/C19.py on every run), FiberDefs.v (thread hand-off of SimulationFiber.cpp).
-   Proofs: SimProcOrder.v SimProcSteps.v SimProcInv1.v SimProcInv2.v SimProcExamples.v FiberProofs.v.
+   Proofs: SimProcOrder.v SimProcSteps.v SimProcInv1.v .. SimProcInv7.v SimProcExamples.v FiberProofs.v.
 
    Quantifiers: every clock configuration [cfg] (one or two clocks, any frequencies), every set of process
    scripts and fork targets, coroutine or fiber mode, every tie-break stream [tb] (the order in which
@@ -10,7 +10,7 @@
    "Reachable" = reachable in the small-step semantics of SimProcSteps.v, which contains every state the
    interpreter [run] passes through (interpreter_states_reachable). *)
 From Coq Require Import List NArith ZArith QArith Bool.
-From Gatery Require Import SimProcDefs SimProcOrder SimProcSteps SimProcInv1 SimProcInv2 SimProcExamples FiberDefs FiberProofs.
+From Gatery Require Import SimProcDefs SimProcOrder SimProcSteps SimProcInv1 SimProcInv2 SimProcInv3 SimProcInv4 SimProcInv5 SimProcInv6 SimProcInv7 SimProcExamples FiberDefs FiberProofs.
 Import ListNotations.
 Local Close Scope Q_scope.
 
@@ -112,6 +112,120 @@ Example waits_nontrivial :
   count_entries (fun e => match e with LProc _ _ _ _ _ (AWake (WkFor _) _) => true | _ => false end) = 2%nat /\
   count_entries (fun e => match e with LProc _ _ _ _ _ (AWake (WkChange _) _) => true | _ => false end) = 1%nat.
 Proof. destruct demo_nontrivial as (A & B & C & _). exact (conj A (conj B C)). Qed.
+
+(* ---------------------------------------------------------------- phases BEFORE / DURING / AFTER *)
+(* The log of the final state is [s_log (run ...)], NEWEST ENTRY FIRST (res_log is its reverse): in
+   [pre ++ e :: old], [old] is what had been logged when e was logged and [pre] what was logged afterwards.
+   Reading the circuit off a log: [regs_of_log l] = register values recorded by the newest clock flank in l;
+   [pinv p l] = value of the newest write to pin p in l; [after_reeval l] = l as of its newest reevaluate().
+   Circuit: RA = reg(PA), RA2 = reg(RA) on clock A; RB = reg(PB) on clock B (on A if there is one clock). *)
+
+(* What a read returns: for a register the value given to it by the most recent clock flank, for the
+   combinational output the value of the most recent reevaluate(). *)
+Theorem reads_see_last_edge : forall cfg procs fiber until tb fuel pre t ph mt ro pid x v old,
+  s_log (run cfg procs fiber until tb fuel) = pre ++ LProc t ph mt ro pid (ARead x v) :: old ->
+  v = read_log x old.
+Proof. exact reads_see_last_edge_proof. Qed.
+Print Assumptions reads_see_last_edge.
+
+(* What a clock flank does: on the activating flank every register of the clock's domain takes the value its data
+   input had at the last reevaluate() before the flank, the other registers keep theirs ([edge_regs]); and every
+   pin write not yet evaluated at that moment was made in phase DURING of this very instant. *)
+Theorem edge_semantics : forall cfg procs fiber until tb fuel pre t k rising ra ra2 rb old,
+  s_log (run cfg procs fiber until tb fuel) = pre ++ LEdge t k rising ra ra2 rb :: old ->
+  (ra, ra2, rb) = edge_regs (c_two cfg) k rising old /\
+  (forall w, In w (since_reeval old) -> is_write w = true -> exists mt ro pid a, w = LProc t DURING mt ro pid a).
+Proof. exact edge_semantics_proof. Qed.
+Print Assumptions edge_semantics.
+
+(* BEFORE.  (1) Whatever a process does in phase BEFORE of time t -- being resumed, reading, writing -- happens
+   before any clock flank of time t is served: by reads_see_last_edge it sees the register values from before
+   the edge.  (2) Its pin writes are evaluated before the next flank, and (3) the register clocked by that flank
+   holds the written value afterwards (unless the pin is written again before the flank). *)
+Theorem before_sees_old_and_is_captured : forall cfg procs fiber until tb fuel,
+  (forall pre t mt ro pid a old,
+     s_log (run cfg procs fiber until tb fuel) = pre ++ LProc t BEFORE mt ro pid a :: old -> ~ edge_at t old) /\
+  (forall pre t k rising ra ra2 rb mid tw mtw ro pid p v old,
+     s_log (run cfg procs fiber until tb fuel) =
+       pre ++ LEdge t k rising ra ra2 rb :: mid ++ LProc tw BEFORE mtw ro pid (AWrite p v) :: old ->
+     In LReeval mid) /\
+  (forall pre t k ra ra2 rb mid tw mtw ro pid p v old,
+     s_log (run cfg procs fiber until tb fuel) =
+       pre ++ LEdge t k true ra ra2 rb :: mid ++ LProc tw BEFORE mtw ro pid (AWrite p v) :: old ->
+     (forall t' ph' mt' ro' pid' v', ~ In (LProc t' ph' mt' ro' pid' (AWrite p v')) mid) ->
+     match p, k with
+     | PA, CA => ra = Some v
+     | PB, CB => c_two cfg = true -> rb = Some v
+     | PB, CA => c_two cfg = false -> rb = Some v
+     | PA, CB => True
+     end).
+Proof.
+  exact (fun cfg procs fiber until tb fuel =>
+    conj (fun pre t mt ro pid a old E =>
+            before_during_precede_edges_proof cfg procs fiber until tb fuel pre t BEFORE mt ro pid a old E
+              (fun H => match H in (_ = y) return (match y with BEFORE => True | _ => False end) with eq_refl => I end))
+    (conj (fun pre t k rising ra ra2 rb mid tw mtw ro pid p v old E =>
+            write_outside_during_evaluated_proof cfg procs fiber until tb fuel pre t k rising ra ra2 rb mid tw BEFORE mtw ro pid p v old E
+              (fun H => match H in (_ = y) return (match y with BEFORE => True | _ => False end) with eq_refl => I end))
+          (before_write_captured_proof cfg procs fiber until tb fuel))).
+Qed.
+Print Assumptions before_sees_old_and_is_captured.
+
+(* DURING.  (1) Whatever a process does in phase DURING of time t happens before any clock flank of time t is
+   served (it sees the old register values).  (2) A pin write made in phase DURING of the flank's own instant is
+   NOT evaluated before the flank: the registers that advance take the values their pins had at the
+   reevaluate() that preceded the write (after_reeval of the log with the write = after_reeval without it). *)
+Theorem during_sees_old_not_captured : forall cfg procs fiber until tb fuel,
+  (forall pre t mt ro pid a old,
+     s_log (run cfg procs fiber until tb fuel) = pre ++ LProc t DURING mt ro pid a :: old -> ~ edge_at t old) /\
+  (forall pre t k rising ra ra2 rb mid tw mtw ro pid p v old,
+     s_log (run cfg procs fiber until tb fuel) =
+       pre ++ LEdge t k rising ra ra2 rb :: mid ++ LProc tw DURING mtw ro pid (AWrite p v) :: old ->
+     (tw == t)%Q ->
+     ~ In LReeval mid /\
+     (ra, ra2, rb) = edge_regs (c_two cfg) k rising (mid ++ LProc tw DURING mtw ro pid (AWrite p v) :: old) /\
+     after_reeval (mid ++ LProc tw DURING mtw ro pid (AWrite p v) :: old) = after_reeval old).
+Proof.
+  exact (fun cfg procs fiber until tb fuel =>
+    conj (fun pre t mt ro pid a old E =>
+            before_during_precede_edges_proof cfg procs fiber until tb fuel pre t DURING mt ro pid a old E
+              (fun H => match H in (_ = y) return (match y with DURING => True | _ => False end) with eq_refl => I end))
+         (fun pre t k rising ra ra2 rb mid tw mtw ro pid p v old E Eq =>
+            conj (during_write_not_evaluated_proof cfg procs fiber until tb fuel pre t k rising ra ra2 rb mid tw mtw ro pid p v old E Eq)
+                 (during_write_not_captured_proof cfg procs fiber until tb fuel pre t k rising ra ra2 rb mid tw mtw ro pid p v old E Eq))).
+Qed.
+Print Assumptions during_sees_old_not_captured.
+
+(* AFTER.  A process resumed by WaitClock(c, AFTER) at time t runs after the registers of c have advanced at t;
+   by reads_see_last_edge its reads return the new values. *)
+Theorem after_sees_new : forall cfg procs fiber until tb fuel pre t ph mt ro pid c g old,
+  s_log (run cfg procs fiber until tb fuel) = pre ++ LProc t ph mt ro pid (AWake (WkClk c AFTER) g) :: old ->
+  edge_logged (eff_clk cfg c) t old.
+Proof. exact after_follows_edge_proof. Qed.
+Print Assumptions after_sees_new.
+Example phases_nontrivial :
+  count_entries (fun e => match e with LProc _ BEFORE _ _ _ (AWake (WkClk _ _) _) => true | _ => false end) = 1%nat /\
+  count_entries (fun e => match e with LProc _ DURING _ _ _ (AWake (WkClk _ _) _) => true | _ => false end) = 1%nat /\
+  count_entries (fun e => match e with LProc _ AFTER _ _ _ (AWake (WkClk _ _) _) => true | _ => false end) = 3%nat /\
+  count_entries (fun e => match e with LEdge _ _ true _ _ _ => true | _ => false end) = 7%nat.
+Proof. destruct demo_nontrivial as (_ & _ & _ & A & B & C & D & _). exact (conj A (conj B (conj C D))). Qed.
+
+(* ---------------------------------------------------------------- determinism *)
+
+(* [simulate] is a function of (clock configuration, scripts, mode, run length, tie-break stream, fuel): the log
+   depends on nothing else (no addresses, no hash order, no OS schedule: fibers are covered by handoff_mutex).
+   The tie-break stream stands for the one thing Event::operator< leaves open (which of two equivalent
+   clockPinTrigger events of different pins is served first).
+   FULL STATEMENT (not proved):  forall tb tb', c_two cfg = false ->
+       res_log (simulate cfg procs fiber until tb fuel) = res_log (simulate cfg procs fiber until tb' fuel),
+   and for two clocks the same whenever no tie is consumed.
+   PROVED (partial): with a single clock no tie-break bit is ever consumed -- the queue never holds two
+   clockPinTrigger events, so pop_event never reaches the branch that reads the stream.  Missing for the full
+   statement: the (routine) relational argument that the stream is read nowhere else. *)
+Theorem run_deterministic_partial : forall cfg procs fiber until tb fuel,
+  c_two cfg = false -> res_ties (simulate cfg procs fiber until tb fuel) = 0%N.
+Proof. exact single_clock_no_ties_proof. Qed.
+Print Assumptions run_deterministic_partial.
 
 (* ---------------------------------------------------------------- fibers: thread hand-off *)
 
